@@ -99,6 +99,9 @@ def generate(prop, rng, tier):
     # memory layout of the pool elements and of the out arguments: mostly
     # contiguous, sometimes Fortran-ordered or a strided view
     plan['xlay'] = [rng.choice(LAYOUTS) for _ in range(3)]
+    # value patterns random draws never produce: points where all components
+    # vanish, the zero element, ties, integers, a vanishing component
+    plan['xpat'] = [rng.choice(XPATTERNS) for _ in range(3)]
     for _ in range(n):
         if c10:
             t = rng.choices(['alias', 'oop', 'ip', 'scribble'],
@@ -127,12 +130,50 @@ def generate(prop, rng, tier):
 
 
 LAYOUTS = ['C'] * 5 + ['F', 'strided', 'strided']
+XPATTERNS = ['rand'] * 6 + ['zero_points', 'zero_points', 'all_zero', 'ties',
+                            'ints', 'one_comp_zero']
+
+
+def _pattern(x, pat, g):
+    """Impose a value pattern on a pool element (in place)."""
+    if pat == 'rand' or not SP.is_elem(x):
+        return
+    arrs = elem_arrays(x)
+    if not arrs or any(a.dtype.kind not in 'fc' for a in arrs):
+        return
+    if pat == 'all_zero':
+        for a in arrs:
+            a[...] = 0
+    elif pat == 'one_comp_zero':
+        arrs[int(g.integers(0, len(arrs)))][...] = 0
+    elif pat == 'ties':
+        for a in arrs:
+            a[...] = np.sign(np.round(a.real)) if a.dtype.kind == 'f' else \
+                np.sign(np.round(a.real)) + 1j * np.sign(np.round(a.imag))
+    elif pat == 'ints':
+        for a in arrs:
+            a[...] = np.round(2 * a)
+    elif pat == 'zero_points':
+        # the same positions in every component of equal shape
+        shp = arrs[0].shape
+        mask = g.random(shp) < 0.4
+        if mask.size and not mask.any():
+            mask.flat[0] = True
+        for a in arrs:
+            if a.shape == shp:
+                a[mask] = 0
+            else:
+                a[g.random(a.shape) < 0.4] = 0
 
 
 _relayout = SP.relayout
 
 
 def simplify(prop, plan):
+    if any(p_ != 'rand' for p_ in plan.get('xpat', [])):
+        c = copy.deepcopy(plan)
+        c['xpat'] = ['rand'] * len(plan['xpat'])
+        yield c
     if any(l != 'C' for l in plan.get('xlay', [])):
         c = copy.deepcopy(plan)
         c['xlay'] = ['C'] * len(plan['xlay'])
@@ -210,6 +251,12 @@ class Run(object):
         scale = cfg.get('scale', 1.0)
         with seams.allocator('zero'):
             self.xs = [SP.rand_elem(op.domain, g, scale, pos) for _ in range(3)]
+            if not pos:
+                gp = np_rng('xpat', self.plan['xseed'])
+                for i_, pat in enumerate(self.plan.get('xpat', [])[:3]):
+                    if pat != 'rand':
+                        _pattern(self.xs[i_], pat, gp)
+                        self.ctx.fired('xpattern-' + pat)
             for i_, lay in enumerate(self.plan.get('xlay', [])[:3]):
                 if lay != 'C':
                     self.xs[i_] = _relayout(self.xs[i_], lay)
